@@ -197,6 +197,12 @@ def reference_values(case, R, orc_dims, strand):
         if order.get("insertion_id") not in ids:
             return None
         key = ids.index(order["insertion_id"]) - len(vins)
+        kw = (vins[ids.index(order["insertion_id"])].get("kwargs") or {})
+        if str(order.get("measure", "")).startswith("population") and \
+                set(kw.get("negative") or []) & set(opp_dim.keys):
+            # the public population estimates of a DIFFERENCE are masked to NaN after the
+            # sort has used the unmasked values: nothing public to judge the order against
+            return "skip"
     if key not in opp_order:
         return None
     q = opp_order.index(key)
@@ -225,6 +231,9 @@ def judge(case, rec):
         rec.violation("order lists a vector twice: %r" % got, "duplicate")
         return
     values = reference_values(case, R, odims, strand)
+    if values == "skip":
+        rec.event("population sort by a difference: skipped")
+        return
     meta = case["meta"]
     refs = _refs(own)
     can = own.kind in ("cat", "ca_cats")
